@@ -111,8 +111,11 @@ def generate(spec):
         elif r < 0.58:
             ops.append({"op": "delete", "id": rng.randrange(0, max(1, next_id + 2))})
             n_live_est = max(0, n_live_est - 1)
-        elif r < 0.66:
+        elif r < 0.63:
             ops.append({"op": "delete_many", "ids": sorted({rng.randrange(0, max(1, next_id + 2)) for _ in range(rng.choice([2, 3]))})})
+            n_live_est = max(0, n_live_est - 2)
+        elif r < 0.66:
+            ops.append({"op": rng.choice(["delete_type", "delete_each_of_type"]), "type": rng.choice(["a", "b"])})
             n_live_est = max(0, n_live_est - 2)
         elif r < 0.74:
             spec_ = [[t, rng.choice([0, 1, 2, 3])] for t in rng.sample(["a", "b"], rng.choice([1, 2]))]
@@ -161,6 +164,9 @@ def shadow_apply(sh, op):
         sh["live"].pop(op["id"], None)
     elif k == "delete_many":
         for i in op["ids"]:
+            sh["live"].pop(i, None)
+    elif k in ("delete_type", "delete_each_of_type"):
+        for i in [i for i, (t, s_) in sh["live"].items() if t == op["type"]]:
             sh["live"].pop(i, None)
     elif k == "configure":
         sh["live"].clear()
@@ -237,11 +243,12 @@ def run_history(ops_or_syms, res, log, symbolic):
         log.add("op", n, op)
         if destructive:
             after_destructive = True
-        if op["op"] in ("delete", "delete_many", "configure", "configure_bad", "reset"):
+        if op["op"] in ("delete", "delete_many", "delete_type", "delete_each_of_type", "configure", "configure_bad", "reset"):
             destructive = True
-            res.fault({"delete": "agent_deletion", "delete_many": "agent_deletion", "configure": "reconfiguration",
+            res.fault({"delete": "agent_deletion", "delete_many": "agent_deletion", "delete_type": "agent_deletion",
+                       "delete_each_of_type": "agent_deletion", "configure": "reconfiguration",
                        "configure_bad": "failed_reconfiguration", "reset": "reset"}[op["op"]])
-            if op["op"].startswith("delete"):
+            if op["op"] in ("delete", "delete_many"):
                 ids = [op["id"]] if op["op"] == "delete" else op["ids"]
                 if any(i not in sh["live"] for i in ids):
                     res.probe("delete_nonexistent_id")
